@@ -15,7 +15,7 @@ struct ChaosRun : NodeEnv {
     ~ChaosRun() { for (auto &b : cbuf) free(b); }
     static void appCb(void *) { if (W) W->preemptPoint(2000); }
     std::vector<Op> cbQueue[7]; int cbDepth = 0; bool hooks = false;
-    void fire(int which) { if (cbDepth || cbQueue[which].empty() || stopped) return; cbDepth++; Op a = cbQueue[which].back(); cbQueue[which].pop_back(); int keep = w.cur; apiCall(a); w.cur = keep; cbDepth--; cov.hit("api-call-from-inside-a-callback"); }
+    void fire(int which) { if (cbDepth >= 2 || cbQueue[which].empty() || stopped) return;   /* up to two levels deep: a call made from a callback may provoke another callback that calls again */ cbDepth++; Op a = cbQueue[which].back(); cbQueue[which].pop_back(); int keep = w.cur; apiCall(a); w.cur = keep; cbDepth--; cov.hit("api-call-from-inside-a-callback"); }
     void installHooks() { if (hooks) return; hooks = true;
         w.onHbConsEvent = [this](uint8_t) { fire(0); }; w.onHbConsChange = [this](uint8_t, int) { fire(1); }; w.onPdoTransmit = [this](const Frame &) { fire(2); }; w.onPdoReceive = [this](const Frame &) { fire(3); };
         w.onSyncUpdate = [this](int) { fire(4); }; w.onModeChange = [this](int) { fire(5); }; w.onCanReceive = [this](const Frame &) { fire(6); }; }
